@@ -1,6 +1,7 @@
 package main
 
 import (
+	"strconv"
 	"encoding/json"
 	"flag"
 	"fmt"
@@ -280,6 +281,48 @@ func cmdVerify(dir, only string, timeout int, outDir string, verbose bool) int {
 		}
 	}
 	fmt.Printf("%d obligations, %d discharged\n", len(all), nOK)
+	// HVC_BOUNDED=K: additionally unroll every loop K times and report the obligations that have a
+	// concrete counterexample (a debugging aid for contracts: `unknown` above says nothing)
+	if ks := os.Getenv("HVC_BOUNDED"); ks != "" && rc != 0 {
+		K, _ := strconv.Atoi(ks)
+		for _, k := range keys {
+			fc := v.cs.Funcs[k]
+			if fc.Trusted || (fc.Inline && len(fc.Ensures) == 0) || (only != "" && !strings.Contains(k, only)) {
+				continue
+			}
+			fn := v.findFunction(fc.Pkg, fc.Name)
+			if fn == nil {
+				continue
+			}
+			root, err := v.VerifyFunctionBounded(fn, fc, K)
+			if err != nil || root == nil {
+				fmt.Printf("bounded: %s: %v\n", k, err)
+				continue
+			}
+			var cand []*Obligation
+			for _, o := range root.obls {
+				switch o.Kind {
+				case "vacuity", "unwind":
+					continue
+				}
+				o.Name += "~bounded"
+				cand = append(cand, o)
+			}
+			noRetry = true
+			dischargeAll(cand, filepath.Join(outDir, "smt-bounded"), 15, 16)
+			noRetry = false
+			for _, o := range cand {
+				if o.Status == "unsat" {
+					continue
+				}
+				fmt.Printf("  bounded(%d) %-56s [%s] %s\n        %s\n", K, o.Name, o.Status, o.Solver, o.Desc)
+				if o.Status == "sat" && replayFailures {
+					rr := v.replayObligation(o, root.top, fn, fc, filepath.Join(outDir, "replay"), o.Model)
+					fmt.Printf("        replay: %s (%s)\n", rr.Detail, rr.File)
+				}
+			}
+		}
+	}
 	return rc
 }
 
